@@ -21,6 +21,7 @@ import (
 	"go/types"
 	"os"
 	"path/filepath"
+	"regexp"
 	"sort"
 	"strconv"
 	"strings"
@@ -209,6 +210,8 @@ func doPackage(rel string) error {
 	return nil
 }
 
+var syncTypeRx = regexp.MustCompile(`\bsync\.(Mutex|RWMutex|Pool|Once)\b`)
+
 // genReset generates SimResetGlobals(), which puts every package-level variable back to
 // its initial value (zero value, or its initialiser re-evaluated in initialisation order),
 // so that the harness can start every case from the package state of a fresh process.
@@ -280,10 +283,9 @@ func genReset(fset *token.FileSet, files []*ast.File, info *types.Info, pkgName 
 		body = append(body, fmt.Sprintf("\t%s = %s", strings.Join(lhs, ", "), exprStr(in.Rhs)))
 	}
 	all := strings.Join(body, "\n")
-	if strings.Contains(all, "sync.Mutex") || strings.Contains(all, "sync.RWMutex") || strings.Contains(all, "sync.Pool") || strings.Contains(all, "sync.Once") {
+	if syncTypeRx.MatchString(all) {
 		// the instrumented copy declares these variables with the simulator's types
-		all = strings.ReplaceAll(strings.ReplaceAll(all, "sync.RWMutex", "simrt.RWMutex"), "sync.Mutex", "simrt.Mutex")
-		all = strings.ReplaceAll(strings.ReplaceAll(all, "sync.Pool", "simrt.Pool"), "sync.Once", "simrt.Once")
+		all = syncTypeRx.ReplaceAllString(all, "simrt.$1")
 		imports[*mod+"/simrt"] = "simrt"
 		if !strings.Contains(all, "sync.") {
 			delete(imports, "sync")
